@@ -25,11 +25,13 @@ def ports_of(spec):
     return prov, req, inj
 
 
-def _side_cfg(rng: Rng, names, extra_ok, allow_mixed, force=None):
+def _side_cfg(rng: Rng, names, extra_ok, allow_mixed, force=None, explicit_bias=False):
     """Return ({'sts': sel, 'mts': sel}, {port: 'STS'|'MTS'}) valid for the given port names.
     extra_ok: names that may additionally be listed explicitly (injected ports) without effect."""
     names = list(names)
     style = rng.weighted([(3, 'all'), (2, 'remaining'), (3, 'explicit'), (2, 'explicit+remaining')])
+    if explicit_bias:
+        style = rng.weighted([(1, 'all'), (1, 'remaining'), (6, 'explicit'), (4, 'explicit+remaining')])
     if not allow_mixed:
         sem = force or rng.choice(['STS', 'MTS'])
         other = 'MTS' if sem == 'STS' else 'STS'
@@ -77,18 +79,18 @@ def _side_cfg(rng: Rng, names, extra_ok, allow_mixed, force=None):
     return cfg, assign
 
 
-def gen_cfg(rng: Rng, spec, use_mc=None, origin=None, force_all_mts=False) -> dict:
+def gen_cfg(rng: Rng, spec, use_mc=None, origin=None, force_all_mts=False, explicit_bias=False) -> dict:
     """A valid configuration spec for the model, with the expected per-port semantics under key 'expect'."""
     prov, req, inj = ports_of(spec)
     mc = spec['mc'] if (spec['mc'] and (use_mc if use_mc is not None else rng.chance(70))) else None
     if mc or force_all_mts:
-        pcfg, passign = _side_cfg(rng, prov, [], False, force='MTS')
+        pcfg, passign = _side_cfg(rng, prov, [], False, force='MTS', explicit_bias=explicit_bias)
     else:
-        pcfg, passign = _side_cfg(rng, prov, [], False)
+        pcfg, passign = _side_cfg(rng, prov, [], False, explicit_bias=explicit_bias)
     if force_all_mts:
-        rcfg, rassign = _side_cfg(rng, req, inj, True, force='MTS')
+        rcfg, rassign = _side_cfg(rng, req, inj, True, force='MTS', explicit_bias=explicit_bias)
     else:
-        rcfg, rassign = _side_cfg(rng, req, inj, True)
+        rcfg, rassign = _side_cfg(rng, req, inj, True, explicit_bias=explicit_bias)
     expect = {}
     expect.update(passign)
     expect.update(rassign)
